@@ -50,9 +50,31 @@ def odd_names(w, rng):
             w.put_file((w.scans[0][0], b"odd_%d" % files.index(f)), f.content)
 
 
+def dotdot(w, rng):
+    """The export directory is given as <tree>/lnk_up/../<export>, where lnk_up is a symbolic link to a directory two
+    levels down: the kernel's '..' is the parent of the link's TARGET, a textual '..' is not.  Everything the run
+    creates must lie below the directory the argument really names."""
+    old = tuple(w.export)
+    new = (b"bystander",) + old
+    w.put_dir((b"bystander", b"deep"))
+    w.files[(b"lnk_up",)] = ("symlink", b"bystander/deep")
+    for k in list(w.files):
+        if k[:len(old)] == old:
+            v = w.files.pop(k)
+            if v[0] != "symlink":
+                w.files[new + k[len(old):]] = v
+    for k, v in list(w.files.items()):
+        if v[0] == "link" and tuple(v[1][:len(old)]) == old:
+            w.files[k] = ("link", new + tuple(v[1][len(old):]))
+    w.files = {k: v for k, v in w.files.items() if not (v[0] == "link" and tuple(v[1]) not in w.files)}
+    w.scans = [new if tuple(s) == old else s for s in w.scans]
+    w.export = new
+    w.export_arg = (b"lnk_up", b"..") + old
+
+
 correspondence, search, replay, ASSUMPTIONS = runbase.make(
     "C03", [oracles.c03],
-    [("std", 130, 1200, {}, None), ("overlap", 70, 800, {}, overlap), ("odd", 60, 500, {}, odd_names)],
-    "generated worlds with bystander directories, scan directories overlapping / containing the export directory, both flag values; recursive before/after snapshot of the whole sandbox + every open mode from the fs-shim log; adversarial names are exercised at the loader (C10 stream) and here through documents that must not load",
+    [("std", 130, 1200, {}, None), ("overlap", 70, 800, {}, overlap), ("odd", 60, 500, {}, odd_names), ("dotdot", 24, 200, {}, dotdot)],
+    "generated worlds with bystander directories, an export argument spelled through a symbolic link and '..' (the kernel's parent differs from the textual one), scan directories overlapping / containing the export directory, both flag values; recursive before/after snapshot of the whole sandbox + every open mode from the fs-shim log; adversarial names are exercised at the loader (C10 stream) and here through documents that must not load",
     "good_op: every mutating operation targets the export image of a non-padding segment or its parent directories; target_*_shape: lexically inside export/<hex>/Data; candidate/index opens are read-only (Generated.v obligations)",
     ["no symbolic link inside an export subtree redirects a path (lexical confinement)"])
